@@ -35,6 +35,8 @@ static unsigned char* g_hi; // one past the last data byte
 static sigjmp_buf g_env;
 static volatile sig_atomic_t g_armed;
 static void* volatile g_fault_addr;
+static const char* volatile g_section = "start-up"; // which family of forms is running (for the report of an unguarded fault)
+static const char* volatile g_type = "";
 static void on_segv(int, siginfo_t* si, void*)
 {
     if (g_armed)
@@ -43,6 +45,13 @@ static void on_segv(int, siginfo_t* si, void*)
         g_armed = 0;
         siglongjmp(g_env, 1);
     }
+    // a fault outside an armed kernel call: some load/store used by the harness itself (to read a batch back or to
+    // prepare an operand) touched the unmapped guard page. That is a kernel reaching outside its footprint as well.
+    char b[300];
+    long off = (long)((unsigned char*)si->si_addr - g_lo);
+    int n = snprintf(b, sizeof b, "UNGUARDED-FAULT section=%s type=%s arch=" XV_ARCH_NAME " fault at data offset %ld (data area is [0, %ld))\n", g_section, g_type, off, (long)(g_hi - g_lo));
+    if (n > 0)
+        (void)!write(2, b, (size_t)n);
     _exit(99);
 }
 
@@ -149,6 +158,7 @@ static void check_load(const char* op, size_t step, LoadF load)
             ++n;
             unsigned char got[64 * 2];
             g_armed = 1;
+        asm volatile("" ::: "memory"); // the kernel call below must not be moved out of the armed window
             if (sigsetjmp(g_env, 1))
             {
                 char b[200];
@@ -157,7 +167,8 @@ static void check_load(const char* op, size_t step, LoadF load)
                 continue;
             }
             Bt v = load((const T*)p);
-            g_armed = 0;
+            asm volatile("" ::: "memory");
+        g_armed = 0;
             v.store_unaligned((T*)got);
             if (memcmp(got, p, F) != 0)
             {
@@ -197,6 +208,7 @@ static void check_store(const char* op, size_t step, StoreF store)
         ++n;
         fill_arena(2);
         g_armed = 1;
+        asm volatile("" ::: "memory"); // the kernel call below must not be moved out of the armed window
         if (sigsetjmp(g_env, 1))
         {
             char b[200];
@@ -205,6 +217,7 @@ static void check_store(const char* op, size_t step, StoreF store)
             continue;
         }
         store((T*)p, v);
+        asm volatile("" ::: "memory");
         g_armed = 0;
         if (memcmp(p, src, F) != 0)
         {
@@ -236,6 +249,7 @@ static void check_store(const char* op, size_t step, StoreF store)
 template <class T>
 static void run_plain()
 {
+    g_section = "plain load/store forms";
     const size_t al = A::alignment();
     check_load<T>("load_unaligned", 1, [](const T* p)
                   { return B<T>::load_unaligned(p); });
@@ -271,6 +285,9 @@ static void run_plain()
 template <class From, class To>
 static void run_convert()
 {
+    g_section = "converting load_as/store_as";
+    static const std::string cvname = std::string(tn<From>::name()) + "->" + tn<To>::name();
+    g_type = cvname.c_str();
     using Bt = B<To>;
     const size_t F = Bt::size * sizeof(From);
     const std::string nm = std::string(tn<From>::name()) + "->" + tn<To>::name();
@@ -285,6 +302,7 @@ static void run_convert()
             vals[i] = (From)((i * 3 + 1) % 100);
         memcpy(p, vals, F);
         g_armed = 1;
+        asm volatile("" ::: "memory"); // the kernel call below must not be moved out of the armed window
         if (sigsetjmp(g_env, 1))
         {
             char b[160];
@@ -293,6 +311,7 @@ static void run_convert()
             continue;
         }
         Bt v = xs::load_as<To, A>((const From*)p, xs::unaligned_mode());
+        asm volatile("" ::: "memory");
         g_armed = 0;
         To got[64];
         v.store_unaligned(got);
@@ -305,6 +324,7 @@ static void run_convert()
         // store_as: batch<To> stored as From elements: exactly F bytes
         fill_arena(4);
         g_armed = 1;
+        asm volatile("" ::: "memory"); // the kernel call below must not be moved out of the armed window
         if (sigsetjmp(g_env, 1))
         {
             char b[160];
@@ -313,6 +333,7 @@ static void run_convert()
             continue;
         }
         xs::store_as((From*)p, v, xs::unaligned_mode());
+        asm volatile("" ::: "memory");
         g_armed = 0;
         From back[64];
         memcpy(back, p, F);
@@ -342,6 +363,7 @@ static void run_convert_from() { (run_convert<From, To>(), ...); }
 template <class T>
 static void run_bool()
 {
+    g_section = "batch_bool load/store";
     using M = BB<T>;
     const size_t F = M::size * sizeof(bool);
     uint64_t n = 0;
@@ -358,6 +380,7 @@ static void run_bool()
                 p[i] = want[i] ? 1 : 0;
             }
             g_armed = 1;
+        asm volatile("" ::: "memory"); // the kernel call below must not be moved out of the armed window
             if (sigsetjmp(g_env, 1))
             {
                 violation("batch_bool::load/store", tn<T>::name(), "faulted " + std::to_string((unsigned char*)g_fault_addr - p) + " bytes from the start of a buffer of " + std::to_string(F) + " bytes at data offset " + std::to_string(p - g_lo));
@@ -368,7 +391,8 @@ static void run_bool()
             m.store_unaligned(got);
             fill_arena(6);
             m.store_unaligned((bool*)p);
-            g_armed = 0;
+            asm volatile("" ::: "memory");
+        g_armed = 0;
             for (size_t i = 0; i < M::size; ++i)
                 if (got[i] != want[i] || p[i] != (want[i] ? 1 : 0))
                 {
@@ -394,6 +418,7 @@ static void run_bool()
 template <class T>
 static void run_complex()
 {
+    g_section = "complex load/store";
     using C = std::complex<T>;
     using Bc = xs::batch<C, A>;
     const size_t F = Bc::size * sizeof(C);
@@ -411,6 +436,7 @@ static void run_complex()
                 want[i] = (T)(i + 1) * (T)0.5;
             memcpy(p, want, F);
             g_armed = 1;
+        asm volatile("" ::: "memory"); // the kernel call below must not be moved out of the armed window
             if (sigsetjmp(g_env, 1))
             {
                 violation("complex load/store", tn<C>::name(), "faulted " + std::to_string((unsigned char*)g_fault_addr - p) + " bytes from the start of a buffer of " + std::to_string(F) + " bytes at data offset " + std::to_string(p - g_lo));
@@ -425,7 +451,8 @@ static void run_complex()
                 v.store_aligned((C*)p);
             else
                 v.store_unaligned((C*)p);
-            g_armed = 0;
+            asm volatile("" ::: "memory");
+        g_armed = 0;
             for (size_t i = 0; i < Bc::size; ++i)
                 if (re[i] != want[2 * i] || im[i] != want[2 * i + 1])
                 {
@@ -503,6 +530,7 @@ static std::vector<std::vector<int>> index_vectors(size_t n, size_t tab)
 template <class T>
 static void run_gather_scatter()
 {
+    g_section = "gather/scatter";
     using I = xs::as_integer_t<T>;
     using U = xs::as_unsigned_integer_t<T>;
     const size_t n = B<T>::size, tab = 2 * n;
@@ -525,13 +553,15 @@ static void run_gather_scatter()
                 idx[i] = (I)iv[i];
             xs::batch<I, A> bi = xs::batch<I, A>::load_unaligned(idx);
             g_armed = 1;
+        asm volatile("" ::: "memory"); // the kernel call below must not be moved out of the armed window
             if (sigsetjmp(g_env, 1))
             {
                 violation("gather/scatter", tn<T>::name(), "faulted at byte " + std::to_string((unsigned char*)g_fault_addr - base) + " relative to a table of " + std::to_string(F) + " bytes");
                 continue;
             }
             B<T> g = B<T>::gather(table, bi);
-            g_armed = 0;
+            asm volatile("" ::: "memory");
+        g_armed = 0;
             T got[64];
             g.store_unaligned(got);
             for (size_t i = 0; i < n; ++i)
@@ -549,13 +579,15 @@ static void run_gather_scatter()
             }
             B<T> sv = B<T>::load_unaligned(lanes);
             g_armed = 1;
+        asm volatile("" ::: "memory"); // the kernel call below must not be moved out of the armed window
             if (sigsetjmp(g_env, 1))
             {
                 violation("scatter", tn<T>::name(), "faulted at byte " + std::to_string((unsigned char*)g_fault_addr - base) + " relative to a table of " + std::to_string(F) + " bytes");
                 continue;
             }
             sv.scatter(table, bi);
-            g_armed = 0;
+            asm volatile("" ::: "memory");
+        g_armed = 0;
             for (size_t e = 0; e < tab; ++e)
             {
                 bool indexed = false, match = false;
@@ -594,6 +626,7 @@ static B<T> from_list(const T* v, std::index_sequence<I...>) { return B<T>(v[I].
 template <class T>
 static void run_fill()
 {
+    g_section = "constructors/fills";
     const size_t n = B<T>::size;
     T vals[64], got[64];
     for (size_t rep = 0; rep < 4; ++rep)
@@ -634,6 +667,7 @@ static void run_fill()
 template <class T>
 static void run_type()
 {
+    g_type = tn<T>::name();
     run_plain<T>();
     run_bool<T>();
     run_gather_scatter<T>();
